@@ -75,8 +75,7 @@ def region_goals(ai, st, dst, cnt):
     return alts
 
 
-def run(prog, chk, fs):
-    rid = "C08.c"
+def run(prog, chk, fs, rid="C08.c"):
     chk.rule(rid, "VSA/linear: every Memory::copy/move destination range, every `*bufferEnd = 0` store and the state at every exit of a "
                   "Buffer member lie inside the owned or freshly allocated block (entailment from dominating guards + class invariant)", floor=20)
     chk.assumptions.append("linear domain: size_t arithmetic does not wrap; byte-pointer arithmetic has unit stride")
